@@ -1,6 +1,6 @@
 module verif
 
-go 1.20
+go 1.22
 
 require (
 	github.com/pquerna/otp v1.4.0
